@@ -299,3 +299,25 @@ def setter_field(fx, q, fallback=None):
                 if t['k'] == 'MemberExpr' and t.get('dk') == 'Field' and any(x.get('vid') == ps[0]['vid'] for x in fn.walk(e['c'][1])):
                     return t['d']
     return fallback
+
+
+class OnlyRules:
+    """a view of a Run that records the outcomes of the named rules only (to share one clause of another property's rule set)"""
+
+    def __init__(self, run, rules, rename=None):
+        self._run, self._rules, self._rename = run, set(rules), rename or {}
+
+    def __getattr__(self, name):
+        return getattr(self._run, name)
+
+    def held(self, rule, *a, **k):
+        if rule in self._rules:
+            self._run.held(self._rename.get(rule, rule), *a, **k)
+
+    def violated(self, rule, *a, **k):
+        if rule in self._rules:
+            self._run.violated(self._rename.get(rule, rule), *a, **k)
+
+    def broken(self, rule, *a, **k):
+        if rule in self._rules:
+            self._run.broken(self._rename.get(rule, rule), *a, **k)
